@@ -57,9 +57,9 @@ def r1_who_may_call(ctx: Ctx) -> None:
                         if sub.attr == "reloc_address" and isinstance(n, (ast.Assign, ast.AugAssign)):
                             ctx.count("reloc_writes")
                             ctx.check(fn.fq in allowed_ra, f"{fn.where}:{unparse(n)[:50]}", "the run address is written only by set_position and Program.emit")
-    ctx.floor("write_block_calls", 3)
-    ctx.floor("pc_writes", 3)
-    ctx.floor("set_position_calls", 3)
+    ctx.floor("write_block_calls", 2)
+    ctx.floor("pc_writes", 2)
+    ctx.floor("set_position_calls", 2)
 
 
 def _is_flush(st: ast.stmt) -> bool:
